@@ -46,6 +46,14 @@ def drive (d : DSt) (toks : List String) : DSt × String :=
     match d.user.update with
     | .ok u => ({ d with user := u }, showNats (u.adds.drop d.user.adds.length))
     | .error e => (d, showErr e)
+  | ["updatef", k] =>
+    match k.toNat? with
+    | some k =>
+      match d.user.updateF k with
+      | .ok (u, raised) =>
+        ({ d with user := u }, showNats (u.adds.drop d.user.adds.length) ++ (if raised then " raised" else ""))
+      | .error e => (d, showErr e)
+    | none => (d, "bad-op")
   | ["get_data"] =>
     match d.user.getData with
     | .ok (u, data) =>
